@@ -23,10 +23,10 @@
    lines inside round brackets (C14_parse_any_blank_runs, C14_whitespace_layout_irrelevant, C14_one_statement_one_yield).
    The statement-level theorems speak about statements NAME[k] = rhs given as token lists (GNorm.neq + a layout) under the
    decidable conditions Denorm.dq_ok / dq_ok_ws; that the statements of real scripts are of this form is checked case by case
-   by K_fixed_domain of harness/props/C14.py, not proved.  Findings #20, #22, #24 are stated as refutations. *)
+   by K_fixed_domain of harness/props/C14.py, not proved.  Findings #20 and #22 are stated as refutations; #24 (unclosed fence) is repaired in /repo (85765d5): C14_unclosed_fence_rejected. *)
 From Coq Require Import String Ascii List Bool Arith ZArith Permutation.
 Import ListNotations.
-Require Import PyBase PyStr Lex Symbols Split Merge ParseEq ParseModel GLex GLexFacts GNorm Layout LayoutNorm LayoutLex LayoutSplit LayoutScript ContSplit MergeComm MergePerm Denorm DenormInt DenormFacts LayoutExamples.
+Require Import PyBase PyStr Lex Symbols Split Merge ParseEq ParseModel GLex GLexFacts GNorm Layout LayoutNorm LayoutLex LayoutSplit LayoutScript LayoutAccepted ContSplit MergeComm MergePerm Denorm DenormInt DenormFacts LayoutExamples.
 Open Scope string_scope.
 
 (* ---- stage 3: whitespace ---- *)
@@ -159,12 +159,12 @@ Theorem C14_comment_on_a_line : forall (chk : string -> chk_res) (cs : bool) (li
 Proof. exact comment_on_a_line. Qed.
 Print Assumptions C14_comment_on_a_line.
 
-(* a blank line or a comment-only line between two statements (s1 ends between statements) changes nothing *)
-Theorem C14_blank_line_between : forall (chk : string -> chk_res) (cs : bool) (s1 b s2 : string) (st : sstate),
-  s1 <> "" -> ends_sep s1 = false -> final_state s0 (model_lines s1) = Some st -> clean st = true ->
+(* a blank line or a comment-only line after an accepted block of statements changes nothing *)
+Theorem C14_blank_line_between : forall (chk : string -> chk_res) (cs : bool) (s1 b s2 : string),
+  s1 <> "" -> ends_sep s1 = false -> snd (split_M s1) = None ->
   nosep b = true -> is_blank (strip_comments b) = true ->
   parse_model_M chk cs (s1 ++ nl_s ++ b ++ nl_s ++ s2) = parse_model_M chk cs (s1 ++ nl_s ++ s2).
-Proof. exact blank_line_between. Qed.
+Proof. exact blank_line_between_accepted. Qed.
 Print Assumptions C14_blank_line_between.
 
 Theorem C14_script_level_satisfiable :
@@ -174,12 +174,18 @@ Theorem C14_script_level_satisfiable :
 Proof. exact (conj ex_comment_ok ex_blank_between). Qed.
 Print Assumptions C14_script_level_satisfiable.
 
-(* the statements of  s1 newline s2  are those of s1 followed by those of s2, when s1 ends between statements *)
-Theorem C14_split_app : forall (s1 s2 : string) (st : sstate),
-  s1 <> "" -> ends_sep s1 = false -> final_state s0 (model_lines s1) = Some st -> clean st = true ->
+(* the statements of  s1 newline s2  are those of s1 followed by those of s2, whenever the splitter accepts s1 (raises no error on
+   it).  Since fix 85765d5 that is enough: an accepted script ends between statements — no bracket open, no fence open,
+   nothing buffered (C14_accepted_script_ends_between_statements); before the fix an unclosed fence was accepted (finding #24) *)
+Theorem C14_split_app : forall s1 s2 : string,
+  s1 <> "" -> ends_sep s1 = false -> snd (split_M s1) = None ->
   split_M (s1 ++ nl_s ++ s2) = ((fst (split_M s1) ++ fst (split_M s2))%list, snd (split_M s2)).
-Proof. exact split_app. Qed.
+Proof. exact split_app_accepted. Qed.
 Print Assumptions C14_split_app.
+Theorem C14_accepted_script_ends_between_statements : forall s : string,
+  snd (split_M s) = None -> exists st, final_state s0 (model_lines s) = Some st /\ clean st = true.
+Proof. exact accepted_script_clean. Qed.
+Print Assumptions C14_accepted_script_ends_between_statements.
 
 (* parse_model = parse every statement alone, left to right, then merge *)
 Theorem C14_parse_model_by_statements : forall s : string,
@@ -188,24 +194,33 @@ Theorem C14_parse_model_by_statements : forall s : string,
 Proof. exact parse_model_by_statements. Qed.
 Print Assumptions C14_parse_model_by_statements.
 
-Theorem C14_statements_independent : forall (s1 s2 : string) (st : sstate) (b1 b2 : list (list symbol)),
-  s1 <> "" -> ends_sep s1 = false -> final_state s0 (model_lines s1) = Some st -> clean st = true ->
+Theorem C14_statements_independent : forall (s1 s2 : string) (b1 b2 : list (list symbol)),
+  s1 <> "" -> ends_sep s1 = false -> snd (split_M s1) = None ->
   map_p parse_equation_M (fst (split_M s1)) = POk b1 -> map_p parse_equation_M (fst (split_M s2)) = POk b2 ->
   parse_model_nocheck (s1 ++ nl_s ++ s2) = finish_parse (b1 ++ b2)%list (snd (split_M s2)) /\
   parse_model_nocheck s2 = finish_parse b2 (snd (split_M s2)) /\
-  (snd (split_M s1) = None -> parse_model_nocheck s1 = finish_parse b1 None).
-Proof. exact statements_independent. Qed.
+  parse_model_nocheck s1 = finish_parse b1 None.
+Proof. exact statements_independent_accepted. Qed.
 Print Assumptions C14_statements_independent.
+
+(* fix 85765d5 (was finding #24): a script that leaves a ``` fence open is rejected whole — parse_model never returns a symbol
+   list for it, under any oracle; when the statements before the fence parse, the error is the splitter's ParserError *)
+Theorem C14_unclosed_fence_rejected : forall (chk : string -> chk_res) (cs : bool) (s : string) (st : sstate),
+  final_state s0 (model_lines s) = Some st -> complete st = false ->
+  (forall syms, parse_model_M chk cs s <> POk syms) /\
+  (forall b, map_p parse_equation_M (fst (split_M s)) = POk b -> parse_model_nocheck s = PErr ParserError).
+Proof. exact unclosed_fence_rejected. Qed.
+Print Assumptions C14_unclosed_fence_rejected.
 
 (* reordering statements only reorders symbols: swapping two complete blocks of statements makes parse_model fail in both
    orders or succeed in both with lists that are permutations of each other — the same symbols, every field (name, type,
    lags, leads, equation, code) equal, in another order *)
-Theorem C14_statements_permute : forall (s1 s2 : string) (st1 st2 : sstate) (b1 b2 : list (list symbol)),
-  s1 <> "" -> ends_sep s1 = false -> final_state s0 (model_lines s1) = Some st1 -> clean st1 = true ->
-  s2 <> "" -> ends_sep s2 = false -> final_state s0 (model_lines s2) = Some st2 -> clean st2 = true ->
+Theorem C14_statements_permute : forall (s1 s2 : string) (b1 b2 : list (list symbol)),
+  s1 <> "" -> ends_sep s1 = false -> snd (split_M s1) = None ->
+  s2 <> "" -> ends_sep s2 = false -> snd (split_M s2) = None ->
   map_p parse_equation_M (fst (split_M s1)) = POk b1 -> map_p parse_equation_M (fst (split_M s2)) = POk b2 ->
   same_parse (parse_model_nocheck (s1 ++ nl_s ++ s2)) (parse_model_nocheck (s2 ++ nl_s ++ s1)).
-Proof. exact statements_permute. Qed.
+Proof. exact statements_permute_accepted. Qed.
 Print Assumptions C14_statements_permute.
 
 (* the cross-equation merge does not depend on the order of its input, up to the order of its output: ANY permutation of
@@ -334,6 +349,11 @@ Theorem C14_hypotheses_satisfiable :
 Proof. exact ex_independent_hyps. Qed.
 Print Assumptions C14_hypotheses_satisfiable.
 
+Theorem C14_accepted_satisfiable :
+  snd (split_M ex_s1) = None /\ snd (split_M ex_s2) = None /\ ex_s1 <> "" /\ ex_s2 <> "" /\ ends_sep ex_s1 = false /\ ends_sep ex_s2 = false.
+Proof. exact ex_accepted. Qed.
+Print Assumptions C14_accepted_satisfiable.
+
 Theorem C14_permute_satisfiable :
   final_state s0 (model_lines ex_s2) = Some s0 /\ ends_sep ex_s2 = false /\ ex_s2 <> "" /\
   name_types (parse_model_nocheck (ex_s1 ++ nl_s ++ ex_s2))
@@ -367,11 +387,18 @@ Theorem C14_lhs_index_inner_space_refuted :
 Proof. exact lhs_index_inner_space_refuted. Qed.
 Print Assumptions C14_lhs_index_inner_space_refuted.
 
-(* #24: the guard `clean` of C14_statements_independent is needed: after an unclosed fence later statements vanish *)
-Theorem C14_unclosed_fence_refuted :
-  names_of (parse_model_nocheck fence_s1) = Some [(Some "Y", TEndogenous, Some (IInt 0%Z), Some (IInt 0%Z)); (Some "X", TExogenous, Some (IInt 0%Z), Some (IInt 0%Z))] /\
-  names_of (parse_model_nocheck "Z = W") = Some [(Some "Z", TEndogenous, Some (IInt 0%Z), Some (IInt 0%Z)); (Some "W", TExogenous, Some (IInt 0%Z), Some (IInt 0%Z))] /\
-  parse_model_nocheck (fence_s1 ++ nl_s ++ "Z = W") = parse_model_nocheck fence_s1 /\
-  final_state s0 (model_lines fence_s1) = Some (mkS 0 false ["foo = 1"; "```"]).
-Proof. exact unclosed_fence_refuted. Qed.
-Print Assumptions C14_unclosed_fence_refuted.
+(* fix 85765d5 at work: the script with the open fence is rejected alone and with a statement appended; closing the fence
+   makes it an accepted block again, after which the appended statement is parsed as usual *)
+Theorem C14_unclosed_fence_instance :
+  (parse_model_nocheck fence_s1 = PErr ParserError /\
+   parse_model_nocheck (fence_s1 ++ nl_s ++ "Z = W") = PErr ParserError /\
+   names_of (parse_model_nocheck "Z = W") = Some [(Some "Z", TEndogenous, Some (IInt 0%Z), Some (IInt 0%Z)); (Some "W", TExogenous, Some (IInt 0%Z), Some (IInt 0%Z))] /\
+   final_state s0 (model_lines fence_s1) = Some (mkS 0 false ["foo = 1"; "```"]) /\
+   (exists b, map_p parse_equation_M (fst (split_M fence_s1)) = POk b /\ length b = 1%nat)) /\
+  (snd (split_M (fence_s1 ++ nl_s ++ "```")) = None /\ ends_sep (fence_s1 ++ nl_s ++ "```") = false /\
+   names_of (parse_model_nocheck ((fence_s1 ++ nl_s ++ "```") ++ nl_s ++ "Z = W"))
+   = Some [(Some "Y", TEndogenous, Some (IInt 0%Z), Some (IInt 0%Z)); (Some "X", TExogenous, Some (IInt 0%Z), Some (IInt 0%Z));
+           (Some "Z", TEndogenous, Some (IInt 0%Z), Some (IInt 0%Z)); (Some "W", TExogenous, Some (IInt 0%Z), Some (IInt 0%Z));
+           (None, TVerbatim, None, None)]).
+Proof. exact (conj unclosed_fence_is_rejected closed_fence_accepted). Qed.
+Print Assumptions C14_unclosed_fence_instance.
